@@ -190,15 +190,26 @@ func buildUniverse(M [32]byte) *universe {
 		k := u.add(fmt.Sprint("K", i), ops(prev), outs(o1(val)))
 		prev = op(k.id, 0)
 	}
-	x := u.add("X", ops(U(3)), outs(o1(2e8), o1(3e8-10000)))            // parent of the orphans
-	o := u.add("O", ops(op(x.id, 0)), outs(o1(2e8-10000)))              // orphan when it arrives before X
-	u.add("O2", ops(op(o.id, 0)), outs(o1(2e8-20000)))                  // orphan of an orphan
-	u.add("B", ops(U(5)), outs(o1(1e8-10000)))                          // spends the OP_0 output: script fails
-	u.add("L", ops(U(4)), outs(o1(5e8-10)))                             // fee below the minimum
-	u.add("R", ops(U(1), op(t1.id, 1)), outs(o1(8e8-10000-100000)))     // double spend of U1 that also spends T1's own output
-	u.add("CLo", ops(op(u.by["T1lo"].id, 0)), outs(o1(5e8-5000-10000))) // child of the low-fee double spend
-	u.add("OV", ops(U(4)), outs(o1(5e8+1)))                             // outputs exceed inputs
-	wtx := u.add("W", ops(op(M, uint32(5+nFat))), outs(o1(1e8-30000)))  // segwit spend: size != stripped size
+	x := u.add("X", ops(U(3)), outs(o1(2e8), o1(3e8-10000)))        // parent of the orphans
+	o := u.add("O", ops(op(x.id, 0)), outs(o1(2e8-10000)))          // orphan when it arrives before X
+	u.add("O2", ops(op(o.id, 0)), outs(o1(2e8-20000)))              // orphan of an orphan
+	u.add("B", ops(U(5)), outs(o1(1e8-10000)))                      // spends the OP_0 output: script fails
+	u.add("L", ops(U(4)), outs(o1(5e8-10)))                         // fee below the minimum
+	u.add("R", ops(U(1), op(t1.id, 1)), outs(o1(8e8-10000-100000))) // double spend of U1 that also spends T1's own output
+	// the same kind of replacement with the unconfirmed input listed BEFORE the conflicting one,
+	// and one spending an output of a DESCENDANT of the transaction it replaces
+	u.add("R2", ops(op(t1.id, 1), U(1)), outs(o1(8e8-10000-100001)))
+	u.add("R3", ops(op(c1.id, 0), U(1)), outs(o1(7e8-10000-10000-150000)))
+	// parents on different levels of the fee-ordered list: LG (low rate) -> LP2 (high rate),
+	// stand-alone LP1 (rate in between), LC spends LP1 and LP2 with a rate above LG's;
+	// the package rates [LG,LP2] and [LP1,LG,LP2,LC] stay below LP1's own rate
+	lg := u.add("LG", ops(U(2)), outs(o1(2e8), o1(3e8-10000)))                      // 71 B, ~141 sat/B
+	lp2 := u.add("LP2", ops(op(lg.id, 0)), outs(o1(2e8-60000)))                     // 61 B, ~980 sat/B
+	lp1 := u.add("LP1", ops(U(3)), outs(o1(5e8-43000)))                             // 61 B, ~705 sat/B
+	u.add("LC", ops(op(lp1.id, 0), op(lp2.id, 0)), outs(o1(7e8-43000-60000-86000))) // ~102 B, ~843 sat/B
+	u.add("CLo", ops(op(u.by["T1lo"].id, 0)), outs(o1(5e8-5000-10000)))             // child of the low-fee double spend
+	u.add("OV", ops(U(4)), outs(o1(5e8+1)))                                         // outputs exceed inputs
+	wtx := u.add("W", ops(op(M, uint32(5+nFat))), outs(o1(1e8-30000)))              // segwit spend: size != stripped size
 	wtx.tx.In[0].Witness = [][]byte{{0x51}}
 	wtx.raw = wtx.tx.Serialize(true)
 	for i := 1; i <= nSpam; i++ { // orphans whose parents never show up
@@ -1316,6 +1327,8 @@ var scenarios = []scenario{
 	{"orphans", []string{"net:O", "net:O2", "net:X", "loc:O", "tru:X", "net:B", "net:L", "net:OV", "spam", "resize", "mine:X", "mine:best", "reorg:", "reload", "tick"}, false, true},
 	{"limits", []string{"net:T1", "net:C1", "net:T2", "net:W", "fat", "adv13h", "tick", "limit", "mine:best", "reorg:", "reload", "list"}, false, false},
 	{"rbf100", []string{"net:T2", "chain", "net:T2hi", "tru:T2hi", "list", "mine:best", "reorg:", "reload"}, false, true},
+	{"rbf-own-parent", []string{"net:T1", "net:C1", "net:R", "net:R2", "net:R3", "tru:R2", "mine:best", "list", "reorg:"}, false, true},
+	{"levels", []string{"net:LG", "net:LP2", "net:LP1", "net:LC", "list", "mine:best", "mine:LG", "reorg:"}, false, true},
 	{"final-rbf", []string{"net:T1", "net:T1hi", "tru:T1hi", "loc:T1hi", "net:C1", "mine:best", "mine:T1hi", "reorg:", "list"}, true, true},
 }
 
